@@ -153,17 +153,17 @@ type syncViolation struct {
 }
 
 type syncEngine struct {
-	c        *Ctx
-	eff      *effEngine
-	sum      map[*core.FuncInfo]*syncSummary
-	viols    map[string]syncViolation
-	reloadFn *core.FuncInfo
-	specT    *types.Named
+	c           *Ctx
+	eff         *effEngine
+	sum         map[*core.FuncInfo]*syncSummary
+	viols       map[string]syncViolation
+	reloadFn    *core.FuncInfo
+	specT       *types.Named
 	indexFields map[*types.Var]bool
-	docField *types.Var
-	collect  bool
-	events   int
-	holds    map[string]syncViolation
+	docField    *types.Var
+	collect     bool
+	events      int
+	holds       map[string]syncViolation
 }
 
 func syncRules(c *Ctx) {
@@ -315,10 +315,19 @@ func (e *syncEngine) covReset(newFn *core.FuncInfo) {
 			if !ok || i >= len(as.Rhs) {
 				continue
 			}
-			if call, ok := core.Unparen(as.Rhs[i]).(*ast.CallExpr); ok && isBuiltin(info, call, "make") {
-				if fv := core.FieldOf(info, sel); fv != nil {
+			fv := core.FieldOf(info, sel)
+			if fv == nil {
+				continue
+			}
+			if core.IsMap(fv.Type()) {
+				if c.isFreshMap(reset, as.Rhs[i], 0) {
 					assigned[fv] = true
 				}
+				continue
+			}
+			// a struct of index maps replaced as a whole: X.refs = referenceAnalysis{…: make(…)} or a constructor call
+			for f := range c.freshMapFields(reset, as.Rhs[i], 0) {
+				assigned[f] = true
 			}
 		}
 		return true
@@ -344,6 +353,115 @@ func (e *syncEngine) covReset(newFn *core.FuncInfo) {
 	if n < 20 {
 		c.S.Undecided("C10", "COV-RESET", "floor", "-", fmt.Sprintf("only %d index maps found in Spec (confirmed by hand: 24)", n))
 	}
+}
+
+// isFreshMap: the expression creates a new empty map: make(map…), an empty map literal, or a call of a module
+// function all of whose returns do.
+func (c *Ctx) isFreshMap(fi *core.FuncInfo, e ast.Expr, depth int) bool {
+	if depth > 3 {
+		return false
+	}
+	info := c.info(fi)
+	switch x := core.Unparen(e).(type) {
+	case *ast.CompositeLit:
+		return core.IsMap(info.TypeOf(x)) && len(x.Elts) == 0
+	case *ast.CallExpr:
+		if isBuiltin(info, x, "make") {
+			return true
+		}
+		callee := c.P.StaticCallee(fi, x)
+		g := c.P.Funcs[callee]
+		if callee == nil || g == nil || g.Decl == nil || g.Decl.Body == nil {
+			return false
+		}
+		all, n := true, 0
+		ast.Inspect(g.Decl.Body, func(m ast.Node) bool {
+			if _, isLit := m.(*ast.FuncLit); isLit {
+				return false
+			}
+			if ret, ok := m.(*ast.ReturnStmt); ok {
+				n++
+				if len(ret.Results) != 1 || !c.isFreshMap(g, ret.Results[0], depth+1) {
+					all = false
+				}
+			}
+			return true
+		})
+		return all && n > 0
+	}
+	return false
+}
+
+// freshMapFields: the map fields that are new empty maps in a struct value built by a composite literal
+// (possibly behind &) or by a module constructor all of whose returns build one.
+func (c *Ctx) freshMapFields(fi *core.FuncInfo, e ast.Expr, depth int) map[*types.Var]bool {
+	out := map[*types.Var]bool{}
+	if depth > 3 {
+		return out
+	}
+	info := c.info(fi)
+	switch x := core.Unparen(e).(type) {
+	case *ast.UnaryExpr:
+		return c.freshMapFields(fi, x.X, depth)
+	case *ast.CompositeLit:
+		for _, el := range x.Elts {
+			kv, ok := el.(*ast.KeyValueExpr)
+			if !ok {
+				continue
+			}
+			id, ok := kv.Key.(*ast.Ident)
+			if !ok {
+				continue
+			}
+			fv, _ := info.Uses[id].(*types.Var)
+			if fv == nil || !fv.IsField() {
+				continue
+			}
+			if core.IsMap(fv.Type()) {
+				if c.isFreshMap(fi, kv.Value, depth+1) {
+					out[fv] = true
+				}
+			} else {
+				for f := range c.freshMapFields(fi, kv.Value, depth+1) {
+					out[f] = true
+				}
+			}
+		}
+	case *ast.CallExpr:
+		callee := c.P.StaticCallee(fi, x)
+		g := c.P.Funcs[callee]
+		if callee == nil || g == nil || g.Decl == nil || g.Decl.Body == nil {
+			return out
+		}
+		first := true
+		ast.Inspect(g.Decl.Body, func(m ast.Node) bool {
+			if _, isLit := m.(*ast.FuncLit); isLit {
+				return false
+			}
+			ret, ok := m.(*ast.ReturnStmt)
+			if !ok {
+				return true
+			}
+			var got map[*types.Var]bool
+			if len(ret.Results) == 1 {
+				got = c.freshMapFields(g, ret.Results[0], depth+1)
+			}
+			if first {
+				out, first = got, false
+				if out == nil {
+					out = map[*types.Var]bool{}
+				}
+			} else {
+				for f := range out {
+					if !got[f] {
+						delete(out, f)
+					}
+				}
+			}
+			return true
+		})
+	}
+	return out
 }
 
 // ---- per-function analysis ---------------------------------------------------
